@@ -437,12 +437,12 @@ def rule_r6(ctx: Ctx) -> None:
 
 
 def run(ctx: Ctx) -> None:
-    rule_r1(ctx)
-    rule_r2(ctx)
-    rule_r3(ctx)
-    rule_r4(ctx)
-    rule_r5(ctx)
-    rule_r6(ctx)
+    ctx.attempt(rule_r1, ctx)
+    ctx.attempt(rule_r2, ctx)
+    ctx.attempt(rule_r3, ctx)
+    ctx.attempt(rule_r4, ctx)
+    ctx.attempt(rule_r5, ctx)
+    ctx.attempt(rule_r6, ctx)
     ctx.assume("dict iteration order is insertion order (language guarantee), so dicts filled in a deterministic order are deterministic")
     ctx.assume("which of several simultaneous directory faults is reported first may depend on set order; the rejection itself does not")
     ctx.undecided("read_files == read_namespace type equality; case-insensitive file systems; symlink semantics of the OS; tie order of colliding (same name+version) lookup definitions")
